@@ -207,6 +207,19 @@ void map_case(i64 o_, i64 f_, i64 g_)
       Calls cf;
       OD src = mk(o);
       OD const r = fcppt::optional::map(pass<RV>(src), table<D>(f, cf));
+      if constexpr (!RV)
+      {
+        // a NON-CONST lvalue argument: map is a pure function of it; the argument is the same value
+        // afterwards and a second call gives the same result
+        Calls c1, c2;
+        OD lv = mk(o);
+        OD const r1 = fcppt::optional::map(lv, table<D>(f, c1));
+        bool const unchanged = lv == mk(o);
+        OD const r2 = fcppt::optional::map(lv, table<D>(f, c2));
+        chk(code(r1) == code(r) && unchanged && code(r2) == code(r), "optional::map|non-const-lvalue-argument", [&] {
+          return "map(lvalue " + oname(o) + ", f) = " + oname(code(r1)) + ", argument " + (unchanged ? "unchanged" : "CHANGED to " + oname(code(lv))) + ", second call = " + oname(code(r2)) + "; const lvalue gives " + oname(code(r));
+        });
+      }
       chk(code(r) == m1, KEY(o, "optional::map|result"), [&] { return std::string(cat_name(RV)) + " map(" + oname(o) + ", f) = " + oname(code(r)) + ", expected " + oname(m1); });
       chk(cf.exactly(o - 1), KEY(o, "optional::map|calls"), [&] { return std::string(cat_name(RV)) + " map(" + oname(o) + ", f): " + cf.str() + ", expected " + held_str(o - 1); });
     }
